@@ -77,9 +77,14 @@ def main(argv):
             tiers = ["quick", "thorough"] if tier == "both" else [tier]
             for t in tiers:
                 env2 = dict(os.environ, VERIF_REPO=wt, VERIF_EVIDENCE_DIR=evd, VERIF_REPLAY_DIR=evd)
+                # an evaluation must not be cut short by the wall-clock budget of the tier (a loaded machine
+                # would turn "stopped early" into "silent"); an incomplete silent run is reported as such
+                env2.setdefault("VERIF_BUDGET_S", "3000")
                 rc, o = sh([os.path.join(VERIF, "check"), c, "--tier", t], env=env2, cwd=VERIF)
                 viol = [l for l in o.splitlines() if l.startswith("violation ")]
                 verdict = {0: "silent", 1: "VIOLATION", 2: "internal-error"}.get(rc, "rc=%d" % rc)
+                if rc == 0 and "exhaustive=False" in o:
+                    verdict = "silent-INCOMPLETE (budget stop)"
                 out["checks"]["%s/%s" % (c, t)] = verdict + ((": " + viol[0][:300]) if viol else "")
                 if rc == 2:
                     out["checks"]["%s/%s/log" % (c, t)] = o[-800:]
